@@ -620,8 +620,16 @@ def replay(ck, rp):
         t = r["tag"]
         tmpd = os.path.join(WORK, "replay.tmp")
         os.makedirs(tmpd, exist_ok=True)
-        rc, out, err = vlib.run_exe(wf, ["one", t["file"], t["mutseed"], t["smpctl"], "1" if t["via"] == "path" else "0", tmpd,
-                                         t.get("other", "-")])
+        via = str(["mem", "path", "file", "cb"].index(t.get("via", "mem")))
+        fpath, mutseed, other = t["file"], t["mutseed"], t.get("other", "-")
+        hx = r.get("bytes_hex") or ""
+        if hx and hx != "-" and len(hx) < 4000000:
+            # the recorded bytes themselves, under the original file name
+            d = os.path.join(WORK, "replay.file")
+            os.makedirs(d, exist_ok=True)
+            fpath, mutseed, other = os.path.join(d, os.path.basename(t["file"])), "0", "-"
+            open(fpath, "wb").write(bytes.fromhex(hx))
+        rc, out, err = vlib.run_exe(wf, ["one", fpath, mutseed, t["smpctl"], via, tmpd, other])
         print(err[-2000:])
         bad = rc != 0
         if os.path.exists(drv):
